@@ -24,6 +24,11 @@ theorem cachewf_weaken (ps : List Pkt) (p : Pkt) (c : Cache) (h : CacheWf ps c) 
    fun q hq => ⟨List.mem_append_left _ (h.pps_mem q hq).1, (h.pps_mem q hq).2⟩,
    h.d1, h.d2, h.d3⟩
 
+/-- the key-run bookkeeping does not touch what is cached -/
+theorem cachewf_keyRun (ps : List Pkt) (c : Cache) (r : Option Nat) (h : CacheWf ps c) :
+    CacheWf ps { c with keyRun := r } :=
+  ⟨h.gop_sub, h.vps_mem, h.sps_mem, h.pps_mem, h.d1, h.d2, h.d3⟩
+
 theorem cachewf_pack (k : NalConsts) (ps : List Pkt) (p : Pkt) (c c' : Cache) (key : Bool)
     (h : CacheWf ps c) (hp : p ∉ ps) (hpk : c.pack k p = some (c', key)) : CacheWf (ps ++ [p]) c' := by
   have hw := cachewf_weaken ps p c h
@@ -32,6 +37,7 @@ theorem cachewf_pack (k : NalConsts) (ps : List Pkt) (p : Pkt) (c c' : Cache) (k
   have ns : ∀ q, c.sps = some q → q ≠ p := fun q hq e => hp (e ▸ (h.sps_mem q hq).1)
   have np : ∀ q, c.pps = some q → q ≠ p := fun q hq e => hp (e ▸ (h.pps_mem q hq).1)
   unfold Cache.pack at hpk
+  dsimp only at hpk
   split at hpk
   · injection hpk with e; injection e with e1 _; subst e1; exact hw
   · split at hpk
@@ -68,8 +74,8 @@ theorem cachewf_pack (k : NalConsts) (ps : List Pkt) (p : Pkt) (c c' : Cache) (k
                   · intro q hq; exact ⟨(hw.vps_mem q hq).1, by simp; exact ⟨(h.vps_mem q hq).2, nv q hq⟩⟩
                   · intro q hq; exact ⟨(hw.sps_mem q hq).1, by simp; exact ⟨(h.sps_mem q hq).2, ns q hq⟩⟩
                   · intro q hq; exact ⟨(hw.pps_mem q hq).1, by simp; exact ⟨(h.pps_mem q hq).2, np q hq⟩⟩
-                · injection hpk with e; injection e with e1 _; subst e1; exact hw
-            · injection hpk with e; injection e with e1 _; subst e1; exact hw
+                · injection hpk with e; injection e with e1 _; subst e1; exact cachewf_keyRun _ _ _ hw
+            · injection hpk with e; injection e with e1 _; subst e1; exact cachewf_keyRun _ _ _ hw
 
 theorem cachewf_fold (k : NalConsts) (ps pre : List Pkt) (c : Cache) (h : CacheWf pre c) (hn : (pre ++ ps).Nodup) :
     CacheWf (pre ++ ps) (packAll k c ps) := by
